@@ -148,6 +148,11 @@ def run(ctx):
             dd = [n for n in wl.body if isinstance(n, ast.Assign) and norm(n.targets[0]) == src]
             res.check(bool(dd) and norm(dd[-1].value) == f"sum({new}.values())", "D-SERIES", f, norm(dd[-1]) if dd else src, "count-of-new", "the recorded count is not the number of infected nodes of the new state", loc(v.fi, inner[0]))
 
+    with res.guard("N-FANCYAUG in transition_matrix"):
+        from ..lints import check_fancy_augassign
+
+        res.rules["N-FANCYAUG"] = "weights are accumulated per hyperedge: no `+=` through array-valued indices (repeated pairs would be written once)"
+        check_fancy_augassign(ctx, res, "randwalk.transition_matrix")
     # ---- transition matrix
     with res.guard("transition matrix"):
         v = ctx.view("randwalk.transition_matrix")
@@ -163,7 +168,11 @@ def run(ctx):
         lp = v.enclosing(a, (ast.For,))
         outer = v.enclosing_all(a, (ast.For,))[-1]
         lname = norm(outer.target)
-        res.check(norm(a.value) == f"len({lname}) - 1", "D-SYM", f, norm(a.value), "size-1", "the increment is not (hyperedge size - 1)", loc(v.fi, a))
+        inc = v.inline(a.value)
+        exact = norm(a.value) == f"len({lname}) - 1" or norm(inc) == f"len({lname}) - 1"
+        size_only = isinstance(inc, ast.Call) and norm(inc.func) == "len"  # len(l): off by one
+        const = isinstance(inc, ast.Constant)
+        res.add("D-SYM", f, norm(a.value), "size-1", "ok" if exact else ("violation" if size_only or const else "unknown"), "" if exact else "the increment is not (hyperedge size - 1)", loc(v.fi, a))
         with res.guard("_loop_pairsres, v, ruleDSYM"):
             _loop_pairs(res, v, rule="D-SYM")
         normed = [n for n in walk_no_nested(v.fi.node) if isinstance(n, ast.BinOp) and isinstance(n.op, ast.Div) and "sum(axis=1)" in norm(n.right)]
